@@ -360,7 +360,7 @@ func generate(w *run.W) {
 		}
 	}
 	// sampled: length 4-8
-	ns := w.Pick(20000, 200000)
+	ns := w.Pick(80000, 400000)
 	for b := 0; b < ns; b++ {
 		if !mine() {
 			continue
@@ -390,7 +390,7 @@ func generate(w *run.W) {
 	genErrKind(w, mine)
 
 	// (d) scoping
-	nsc := w.Pick(6000, 60000)
+	nsc := w.Pick(24000, 120000)
 	for b := 0; b < nsc; b++ {
 		if !mine() {
 			continue
